@@ -364,6 +364,15 @@ func c09MsgCase(c *h.Ctx, k *c09Case, stats map[string]int) {
 	if verr := lm.Validate(); verr != nil {
 		c.Drift("llmnr.Message.Validate", pre+"rejects-valid-message", verr.Error(), smp)
 	}
+	// an Encode that FAILS part-way (second question with a 64-byte label) immediately before the valid one: a rejected
+	// call leaves nothing behind, in the message or in the package
+	h.Guard(func() {
+		bad := llmnr.NewMessage()
+		bad.ID = 0xBAD0
+		bad.Questions = []llmnr.Question{{Name: "ok", Type: 1, Class: 1}, {Name: strings.Repeat("x", 64) + ".local", Type: 1, Class: 1}}
+		bad.QDCount = 2
+		bad.Encode()
+	})
 	var out []byte
 	var eerr error
 	if p, hung := c09Run(func() { out, eerr = lm.Encode() }); p != "" || hung {
